@@ -401,7 +401,8 @@ Record robj := mkR {
 
 (* the recording on disk: n samples, nc channels, x.cbin of zc bytes whose
    header announces nch samples; which of x.bin / x.cbin exist *)
-Record rworld := mkW { w_n : Z; w_nc : Z; w_zc : Z; w_nch : Z }.
+(* w_iw: the constructor option ignore_warnings (it only silences the warning) *)
+Record rworld := mkW { w_n : Z; w_nc : Z; w_zc : Z; w_nch : Z; w_iw : bool }.
 Definition fsize (w : rworld) (f : dfile) : Z :=
   match f with DBin => 2 * w_n w * w_nc w | DCbin => w_zc w end.
 
@@ -410,7 +411,7 @@ Definition r_init (w : rworld) (f : dfile) (ns0 : Z) : robj :=
   mkR f (fsize w f) ns0 RawNone false.
 
 (* Reader.open():
-     cbin: _raw = mtscomp.Reader; if _raw.shape != (ns, nc): warn; fileTimeSecs = shape[0] / fs
+     cbin: _raw = mtscomp.Reader; if _raw.shape != (ns, nc): (warn unless ignore_warnings); fileTimeSecs = shape[0] / fs
      bin : if nc * ns * itemsize != self.nbytes:            <- cached nbytes
                ftsec = file_bin.stat().st_size // (itemsize * nc) / fs     <- fresh size
                warn; fileTimeSecs = ftsec
@@ -419,16 +420,17 @@ Definition r_open (w : rworld) (o : robj) : option robj :=
   match o_file o with
   | DCbin =>
       if w_nch w =? o_ns o then Some (mkR DCbin (o_nbytes o) (o_ns o) RawMtscomp false)
-      else Some (mkR DCbin (o_nbytes o) (w_nch w) RawMtscomp true)
+      else Some (mkR DCbin (o_nbytes o) (w_nch w) RawMtscomp (negb (w_iw w)))
   | DBin =>
       let mism := negb (w_nc w * o_ns o * 2 =? o_nbytes o) in
       let ns' := if mism then fsize w DBin / (2 * w_nc w) else o_ns o in
       if (0 <? ns') && (ns' * w_nc w * 2 <=? fsize w DBin)
-      then Some (mkR DBin (o_nbytes o) ns' RawMemmap mism)
+      then Some (mkR DBin (o_nbytes o) ns' RawMemmap (mism && negb (w_iw w)))
       else None
   end.
 
 Inductive rop :=
+| RNop                          (* Reader(..., open=False): construction only *)
 | ROpen
 | RCompress (keep : bool)       (* compress_file(keep_original=keep) *)
 | RDecompress (keep : bool)     (* decompress_file(keep_original=keep, overwrite=True) *)
@@ -454,6 +456,7 @@ Definition r_decompress_inplace (w : rworld) (o : robj) : robj * bool :=
 Definition r_step (w : rworld) (s : rstate) (op : rop) : rstate * bool :=
   let o := s_obj s in
   match op, o_file o with
+  | RNop, _ => (s, false)
   | ROpen, _ =>
       match r_open w o with Some o' => (mkS o' (s_eb s) (s_ec s) (s_sb s), false) | None => (s, true) end
   | RCompress keep, DBin =>
